@@ -1,19 +1,22 @@
 (* C33 — listener dispatch.  Model (definitions only): ONE function per dispatch chain, written
-   exactly as the chain is coded, of
+   exactly as the chain is coded (as of commits 8c56825, 1fc584d, 16b74b1), of
      dds/src/dcps/dcps_domain_participant/communication_methods.rs
-        l.299-312  new data (DataOnReaders / DataAvailable)
-        l.332-356  SampleRejected
+        l.306-328  new data (DataOnReaders / DataAvailable with subscriber and participant fallback)
+        l.340-372  SampleRejected
      dds/src/dcps/dcps_domain_participant/discovery_methods.rs
         l.313-359  RequestedDeadlineMissed        l.418-455  OfferedDeadlineMissed
-        l.1148-1186 PublicationMatched            l.1203-1247 OfferedIncompatibleQos
-        l.1689-1726 SubscriptionMatched           l.1738-1777 RequestedIncompatibleQos
-        l.1271-1300, 1801-1830, 2431-2456 InconsistentTopic (three copies of the same chain)
-        l.1313-1345 remove_discovered_reader / user_defined_data_reader.rs:98-114 remove_matched_publication
-                    (the match count goes down: status raised, NO listener chain at all)
+        l.1162-1200 PublicationMatched            l.1238-1282 OfferedIncompatibleQos (only when
+        l.1779-1816 SubscriptionMatched           l.1850-1889 RequestedIncompatibleQos   the status changed)
+        l.1306-1335, 1913-1942, 2596-2627 InconsistentTopic (three copies of the same chain)
+        l.1348-1434 remove_discovered_reader: PublicationMatched chain for the lost match
+        l.1955-2040 remove_discovered_writer: SubscriptionMatched chain for the lost match
    Inputs of a chain: for each level (entity, publisher/subscriber, participant) whether a listener
    is installed (`listener_sender` is Some) and the level's listener mask (`listener_mask`).
    SampleLost, LivelinessLost and LivelinessChanged are never raised by this implementation (no
-   ListenerMail kind, no add_communication_state): there is no chain to model. *)
+   ListenerMail kind, no add_communication_state): there is no chain to model.
+   NOT modelled: the two other places where a match is lost — a matched endpoint whose updated QoS is
+   incompatible (discovery_methods.rs:1204-1222, 1818-1835) and the removal of a discovered participant
+   (2815-2860); they raise the status without running a listener chain. *)
 From DustDDS Require Import Base.Machine.
 Open Scope Z_scope.
 
@@ -62,14 +65,20 @@ Definition dispatch_requested_incompatible_qos (r s p : lcfg) : list call :=
   else if en p KRIQ then send p Participant KRIQ
   else [].
 
-(* communication_methods.rs:299-312 — no third branch, no DataAvailable at the subscriber *)
+(* communication_methods.rs:306-328 *)
 Definition dispatch_data (r s p : lcfg) : list call :=
   if en s KDOR then send s Group KDOR
   else if en r KDA then send r Entity KDA
+  else if en s KDA then send s Group KDA
+  else if en p KDA then send p Participant KDA
   else [].
 
-(* the match count of a reader goes down (remove_matched_publication): nothing is sent *)
-Definition dispatch_subscription_unmatched (r s p : lcfg) : list call := [].
+(* remove_discovered_writer: the matched writer is gone *)
+Definition dispatch_subscription_unmatched (r s p : lcfg) : list call :=
+  if en r KSM then send r Entity KSM
+  else if en s KSM then send s Group KSM
+  else if en p KSM then send p Participant KSM
+  else [].
 
 (* ---- writer-side chains: w = data writer, b = publisher, p = participant *)
 Definition dispatch_offered_deadline_missed (w b p : lcfg) : list call :=
@@ -90,7 +99,12 @@ Definition dispatch_offered_incompatible_qos (w b p : lcfg) : list call :=
   else if en p KOIQ then send p Participant KOIQ
   else [].
 
-Definition dispatch_publication_unmatched (w b p : lcfg) : list call := [].
+(* remove_discovered_reader: the matched reader is gone *)
+Definition dispatch_publication_unmatched (w b p : lcfg) : list call :=
+  if en w KPM then send w Entity KPM
+  else if en b KPM then send b Group KPM
+  else if en p KPM then send p Participant KPM
+  else [].
 
 (* ---- topic chain: t = topic, p = participant (there is no middle level) *)
 Definition dispatch_inconsistent_topic (t p : lcfg) : list call :=
@@ -135,15 +149,6 @@ Definition swallowed (k : kind) (e g p : lcfg) : bool :=
               match spec_target_strict k e g p with Some _ => true | None => false end
   | None => false
   end.
-
-(* known deviation classes *)
-(* the subscriber does not take data-on-readers, the reader's mask does not enable data-available,
-   and the subscriber's or the participant's does: the code calls nobody *)
-Definition needs_da_fallback (r s p : lcfg) : bool :=
-  negb (en s KDOR) && negb (en r KDA) && (en s KDA || en p KDA).
-(* an un-match with some listener entitled to the callback *)
-Definition unmatch_lost (k : kind) (e g p : lcfg) : bool :=
-  match spec_calls k e g p with [] => false | _ => true end.
 
 (* ------------------------------------------------------------------ events and histories *)
 Inductive ev : Type :=
@@ -193,15 +198,6 @@ Definition spec_ev (c : world) (e : ev) : list lcall :=
   | EvRDM i => map (rlab i) (spec_calls KRDM (rd c i) (w_sub c) (w_p1 c))
   | EvData i => map (rlab i) (spec_data (rd c i) (w_sub c) (w_p1 c))
   | EvSR i => map (rlab i) (spec_calls KSR (rd c i) (w_sub c) (w_p1 c))
-  end.
-
-(* an event of a known deviation class *)
-Definition ev_known (c : world) (e : ev) : bool :=
-  match e with
-  | EvData i => needs_da_fallback (rd c i) (w_sub c) (w_p1 c)
-  | EvPMun i => unmatch_lost KPM (wr c i) (w_pub c) (w_p0 c)
-  | EvSMun i => unmatch_lost KSM (rd c i) (w_sub c) (w_p1 c)
-  | _ => false
   end.
 
 (* a history: every event is dispatched when it happens *)
